@@ -14,7 +14,7 @@ Contracts on the real bodies of PropertyDescriptorRelation (step lemmas, abstrac
   infer_transitive_relations  transitive => for EVERY edge n of the same descriptor class leaving the target: (source, n.target, n.field)
                           and for EVERY such edge m entering the source: (m.source, target, m.field); none if not transitive
   update_source_wrapped_field_value / PropertyDescriptor.update_value: the target becomes part of the source's field
-Composition (argued, measured by the bounded driver): edges are only ever inserted through add_to_graph; for a unary rule the
+Composition: lean/Closure.lean (machine-checked, see h_composition_lemma) - informally: edges are only ever inserted through add_to_graph; for a unary rule the
 consequence is inserted when the premise is; for the transitive rule both premises are present when the later one is
 inserted, and that insertion combines the new edge with every edge present (the snapshot lists of rustworkx) - so the final
 edge set is closed whatever the order; recursion ends because a known edge fires nothing.  Field/graph agreement: an inferred
@@ -52,8 +52,10 @@ ASSUMPTIONS = [
     "MonitoredContainer._update adds the value iff it is not yet contained (C16)",
     "histories are monotone (containers only grow, a single-valued field receives one value)",
 ]
-TRUSTED = ["the composition of the step lemmas into 'the final edge set is the closure' is argued in the module docstring, not machine checked"]
-BOUNDED_ONLY_CLAUSES = ["closure for every assertion order (composition of the step lemmas) is measured by the bounded driver on the university dataset",
+TRUSTED = ["Lean 4.33.0 / Mathlib for the abstract composition lemma (lean/Closure.lean); that the step lemmas instantiate its hypotheses "
+           "(the recursion of add_to_graph is a depth-first schedule of the lemma's pending set, its loops run over later = larger snapshots) is argued"]
+BOUNDED_ONLY_CLAUSES = ["the link between the abstract composition lemma (machine-checked in Lean) and the recursion of add_to_graph is argued; "
+                        "closure for every assertion order is additionally measured by the bounded driver on the university dataset",
                         "termination of the recursive firing is argued (a known edge fires nothing)"]
 
 SYNTH = '''
@@ -519,6 +521,33 @@ def h_flags():
     return Harness("flags", run, spec=Spec())
 
 
+def h_composition_lemma():
+    """The composition of the step lemmas into 'the final edge set is exactly the closure' is the abstract lemma
+    lean/Closure.lean (Lean 4 + Mathlib, no sorry): invariant 'every rule instance over the graph has its conclusion in the
+    graph or pending', preserved by inserting any pending fact with (a superset of) its consequences made pending; nothing
+    pending => closed; everything inserted is derivable => the graph is exactly the derivable set.  The step lemmas above are
+    what instantiates its hypotheses (hu / hb: the rules fired on insertion; hnew: only rule instances are fired)."""
+    def run(vm):
+        import os
+        import subprocess
+        import shutil
+        here = os.path.dirname(os.path.dirname(os.path.abspath(__file__)))
+        path = os.path.join(here, "lean", "Closure.lean")
+        src = open(path).read()
+        lean = shutil.which("lean")
+        ok, why = False, "lean not found"
+        if lean:
+            p = subprocess.run([lean, path], capture_output=True, text=True, timeout=900)
+            out = (p.stdout + p.stderr).strip()
+            ok = p.returncode == 0 and "error" not in out.lower() and "sorry" not in out.lower()
+            why = out[-400:]
+        vm.ctx.check("composition::closure-lemma-is-machine-checked-by-lean", z3.BoolVal(ok), detail=why)
+        vm.ctx.check("composition::the-lemma-has-no-sorry-or-axiom", z3.BoolVal("sorry" not in src and "axiom " not in src and "admit" not in src))
+        for name in ("theorem step_new", "theorem step_known", "theorem closed_of_inv_empty", "theorem inv_init", "theorem sound_step", "theorem exact_closure"):
+            vm.ctx.check("composition::the-lemma-states-" + name.split()[1], z3.BoolVal(name in src))
+    return Harness("composition-lemma", run, spec=Spec())
+
+
 def h_canary():
     def run(vm):
         W = RW(vm)
@@ -530,4 +559,4 @@ def h_canary():
 
 def harnesses():
     return [h_add_to_graph(), h_base_add(), h_infer_super(), h_super_relations(), h_fields_of_superproperties(), h_inverse(), h_transitive(), h_transitive_sources(),
-            h_write_back(), h_flags(), h_canary()]
+            h_write_back(), h_flags(), h_composition_lemma(), h_canary()]
